@@ -45,6 +45,12 @@ MESHES = {m["id"]: m for m in [
           special={"nan": True}),
     _mesh("tri6i", "P", -1.0, [(20, (1, 2, 3, 4, 5, 6)), (10, (3, 2, 7, 5, 8, 9))], "interleaved", nset=(7, 3), elset=(10,)),
     _mesh("pent5", "P", 0.0, [(1, (1, 2, 3, 4, 5))], "blocks", nset=(1,), elset=(1,)),
+    # a larger strip with sparse ids and large sets (not in the BFS menus; driven by one fixed scenario history): id look-ups
+    # that are only right for dense ids or small sets need this size to go wrong
+    _mesh("strip40", "P", 0.0,
+          [(13 + 700 * k, (1000 * (k + 1), 1000 * (k + 2), 1000 * (k + 2) + 500, 1000 * (k + 1) + 500)) for k in range(40)],
+          "interleaved", nset=tuple(1000 * (k + 1) for k in range(0, 41) if k % 4 != 3)[:30],
+          elset=tuple(13 + 700 * k for k in range(40) if k % 3 != 1)),
     # ---- solid (slot S)
     _mesh("tet4", "S", "solid", [(5, (10, 20, 30, 40)), (2, (20, 30, 40, 55))], "blocks", nset=(55, 10), elset=(5,)),
     _mesh("hex8", "S", "solid", [(1, (1, 2, 3, 4, 5, 6, 7, 8))], "blocks", nset=(8, 1), elset=(1,)),
